@@ -413,9 +413,9 @@ def task(args):
 
 
 def run(run):
-    maxlen = 3 if run.tier == "quick" else 4
+    maxlen = 3 if run.tier == "quick" else 5
     sizes = (1, 2, 3) if run.tier == "quick" else (1, 2, 3, 4)
-    nparts = 2 if run.tier == "quick" else 8
+    nparts = 2 if run.tier == "quick" else 16
     tasks = [(s, maxlen, sizes, part, nparts) for s in stack_table() for part in range(nparts)]
     tasks.append(("__shipped__", 0, (), 0, 1))
     run.pmap(task, tasks)
